@@ -27,6 +27,14 @@
 //!            2: i32.  The expression is evaluated TWICE on the same combiner instance;
 //!            out = [first, second], each an outcome as in "expr" except that DistinctSet / TopK
 //!            outputs are digests [len, polynomial hash mod 2^61-1] (DistinctSet sorted first).
+//!   "fbig":  large groups with non-finite floats.  in = [g, specials, psize, mode, nest]: value
+//!            codes (as in "fsweep") from the generator g, then code `c` written at index `i` for
+//!            every [i, c] of specials; cut into chunks of psize, leaf mode, nesting as in tag 7 of
+//!            "big".  out = [AverageF64, Sum<f64>, Min<OrdF64>, Max<OrdF64>] outcomes as in "fsweep".
+//!   "ovf":   Sum over bounded integer types.  in = [ty, expr]; ty 0 i8, 1 u8, 2 i32, 3 u32 with the
+//!            overflow-checked `+` of this (debug) build, 10..13 the same types inside
+//!            std::num::Wrapping (what a release build's `+` does); out = the sum, or "panic" when
+//!            any create/add_input/merge/build_from_group/finish panicked.
 //! outcome: integer | null (finish panicked) | {"f": hex} | sorted int array (DistinctSet) |
 //!          int array as returned (TopK).  AverageF64 values are v/den (den a power of two).
 use ibv::{Emitter, SplitMix64, Tier, drive};
@@ -220,34 +228,42 @@ fn eval_expr<V: Clone + Send + Sync + 'static, A, O, C: LiftableCombiner<V, A, O
         7 => {
             let vs: Vec<V> = gen_vals(&e[1]).into_iter().map(conv).collect();
             let psize = (e[2].as_u64().unwrap() as usize).max(1);
-            let mode = e[3].as_u64().unwrap() as usize;
-            let nest = e[4].as_u64().unwrap();
-            let mut leaves: Vec<A> =
-                vs.chunks(psize).enumerate().map(|(i, p)| leaf(c, lifted_of(mode, i), p)).collect();
-            if leaves.is_empty() {
-                return c.create();
-            }
-            match nest {
-                0 => {
-                    let mut it = leaves.drain(..);
-                    let mut acc = it.next().unwrap();
-                    for a in it {
-                        c.merge(&mut acc, a);
-                    }
-                    acc
-                }
-                1 => {
-                    let mut acc = leaves.pop().unwrap();
-                    while let Some(mut a) = leaves.pop() {
-                        c.merge(&mut a, acc);
-                        acc = a;
-                    }
-                    acc
-                }
-                _ => balanced(c, leaves),
-            }
+            chunked_eval(c, &vs, psize, e[3].as_u64().unwrap() as usize, e[4].as_u64().unwrap())
         }
         _ => panic!("bad expr tag"),
+    }
+}
+
+/// the values cut into chunks of psize, chunk i a leaf (lifted per mode), merged per nest
+fn chunked_eval<V: Clone + Send + Sync + 'static, A, O, C: LiftableCombiner<V, A, O>>(
+    c: &C,
+    vs: &[V],
+    psize: usize,
+    mode: usize,
+    nest: u64,
+) -> A {
+    let mut leaves: Vec<A> = vs.chunks(psize).enumerate().map(|(i, p)| leaf(c, lifted_of(mode, i), p)).collect();
+    if leaves.is_empty() {
+        return c.create();
+    }
+    match nest {
+        0 => {
+            let mut it = leaves.drain(..);
+            let mut acc = it.next().unwrap();
+            for a in it {
+                c.merge(&mut acc, a);
+            }
+            acc
+        }
+        1 => {
+            let mut acc = leaves.pop().unwrap();
+            while let Some(mut a) = leaves.pop() {
+                c.merge(&mut a, acc);
+                acc = a;
+            }
+            acc
+        }
+        _ => balanced(c, leaves),
     }
 }
 
@@ -663,6 +679,21 @@ fn expr_values(e: &Value, out: &mut Vec<i64>) {
     }
 }
 
+/// Sum<T> over a bounded integer type; a panic anywhere (overflow check) is the outcome "panic"
+fn ovf_out<T>(e: &Value, conv: &dyn Fn(i64) -> T, enc: &dyn Fn(T) -> i64) -> Value
+where
+    T: Clone + Send + Sync + 'static + std::ops::Add<Output = T> + Default,
+{
+    match catch_unwind(AssertUnwindSafe(|| {
+        let c = Sum::<T>::new();
+        let acc = eval_expr(&c, e, conv);
+        enc(c.finish(acc))
+    })) {
+        Ok(z) => json!(z),
+        Err(_) => json!("panic"),
+    }
+}
+
 /// evaluate the expression twice on the SAME combiner instance
 fn big_out<V: Clone + Send + Sync + 'static, A, O, C: LiftableCombiner<V, A, O>>(
     c: &C,
@@ -687,13 +718,14 @@ macro_rules! with_typed {
             json!(o)
         };
         match $cid {
-            0 => $f(&Count, $($arg,)* &conv, &encc),
-            1 => $f(&Sum::<$T>::new(), $($arg,)* &conv, &enc1),
-            2 => $f(&Min::<$T>::new(), $($arg,)* &conv, &enc1),
-            3 => $f(&Max::<$T>::new(), $($arg,)* &conv, &enc1),
-            4 => $f(&AverageF64, $($arg,)* &|x: i64| x as $A, &hexf),
-            5 => $f(&DistinctCount::<$T>::new(), $($arg,)* &conv, &encc),
-            6 => $f(&DistinctSet::<$T>::new(), $($arg,)* &conv, &encs),
+            // the Default twins of the `new` constructors
+            0 => $f(&Count::default(), $($arg,)* &conv, &encc),
+            1 => $f(&Sum::<$T>::default(), $($arg,)* &conv, &enc1),
+            2 => $f(&Min::<$T>::default(), $($arg,)* &conv, &enc1),
+            3 => $f(&Max::<$T>::default(), $($arg,)* &conv, &enc1),
+            4 => $f(&AverageF64::default(), $($arg,)* &|x: i64| x as $A, &hexf),
+            5 => $f(&DistinctCount::<$T>::default(), $($arg,)* &conv, &encc),
+            6 => $f(&DistinctSet::<$T>::default(), $($arg,)* &conv, &encs),
             7 => $f(&TopK::<$T>::new($k), $($arg,)* &conv, &encv),
             _ => panic!("bad combiner id"),
         }
@@ -753,6 +785,49 @@ fn run(kind: &str, input: &Value) -> Value {
                 return json!([t, f]);
             }
             with_combiner!(cid, k, den, expr_out, &input[3])
+        }
+        "fbig" => {
+            let mut codes = gen_vals(&input[0]);
+            for sp in input[1].as_array().unwrap() {
+                let i = sp[0].as_u64().unwrap() as usize;
+                codes[i] = sp[1].as_i64().unwrap();
+            }
+            let psize = (input[2].as_u64().unwrap() as usize).max(1);
+            let mode = input[3].as_u64().unwrap() as usize;
+            let nest = input[4].as_u64().unwrap();
+            let fl: Vec<f64> = codes.iter().map(|c| code_f64(*c)).collect();
+            let of: Vec<OrdF64> = codes.iter().map(|c| code_ordf(*c)).collect();
+            let m = mutant();
+            let avg = if m.starts_with("avg_") {
+                let c = mutants::MAvg(m);
+                finish_caught(&c, chunked_eval(&c, &fl, psize, mode, nest), &enc_fclass)
+            } else {
+                finish_caught::<f64, _, _, _>(&AverageF64, chunked_eval(&AverageF64, &fl, psize, mode, nest), &enc_fclass)
+            };
+            let cs = Sum::<f64>::new();
+            let cmin = Min::<OrdF64>::new();
+            let cmax = Max::<OrdF64>::new();
+            json!([
+                avg,
+                finish_caught(&cs, chunked_eval(&cs, &fl, psize, mode, nest), &enc_fclass),
+                finish_caught(&cmin, chunked_eval(&cmin, &of, psize, mode, nest), &enc_ordf),
+                finish_caught(&cmax, chunked_eval(&cmax, &of, psize, mode, nest), &enc_ordf),
+            ])
+        }
+        "ovf" => {
+            use std::num::Wrapping as W;
+            let e = &input[1];
+            match input[0].as_i64().unwrap() {
+                0 => ovf_out::<i8>(e, &|x| x as i8, &|o| o as i64),
+                1 => ovf_out::<u8>(e, &|x| x as u8, &|o| o as i64),
+                2 => ovf_out::<i32>(e, &|x| x as i32, &|o| o as i64),
+                3 => ovf_out::<u32>(e, &|x| x as u32, &|o| o as i64),
+                10 => ovf_out::<W<i8>>(e, &|x| W(x as i8), &|o| o.0 as i64),
+                11 => ovf_out::<W<u8>>(e, &|x| W(x as u8), &|o| o.0 as i64),
+                12 => ovf_out::<W<i32>>(e, &|x| W(x as i32), &|o| o.0 as i64),
+                13 => ovf_out::<W<u32>>(e, &|x| W(x as u32), &|o| o.0 as i64),
+                _ => json!(["bad-type"]),
+            }
         }
         "big" => {
             let cid = input[0].as_i64().unwrap();
@@ -1022,8 +1097,14 @@ fn generate(seed: u64, tier: Tier, em: &mut Emitter) {
         let (nv, mg) = expr_stats(&e);
         queue.push(("expr", json!([cid, k, den, e]), nv >= 2 && mg, vec!["random"]));
     }
+    // 3b. Sum over bounded integer types: exhaustive short sequences over extreme values (every
+    //     split into <= 3 parts, lifted / unlifted) and seeded random expressions
+    ovf_cases(seed, tier, &mut queue);
+
     // 4. big groups (compact descriptions), every combiner, both entry styles
     big_cases(seed, tier, &mut queue);
+    ladder_cases(seed, tier, &mut queue);
+    fbig_cases(seed, tier, &mut queue);
 
     let n = queue.len();
     let mut stride = 7919 % n.max(1);
@@ -1037,6 +1118,70 @@ fn generate(seed: u64, tier: Tier, em: &mut Emitter) {
     }
 }
 
+
+// ---------------------------------------------------------------- bounded integer sums
+fn ovf_cases(seed: u64, tier: Tier, queue: &mut Vec<(&'static str, Value, bool, Vec<&'static str>)>) {
+    let mut rng = SplitMix64::new(seed ^ 0x0F10);
+    let ranges: [(i64, i64, i64); 4] = [(0, -128, 127), (1, 0, 255), (2, -(1 << 31), (1 << 31) - 1), (3, 0, (1 << 32) - 1)];
+    for (ty, lo, hi) in ranges {
+        // extreme and small values of the type
+        let mut dom: Vec<i64> = vec![hi, 1, hi / 2 + 1];
+        if lo < 0 {
+            dom.extend([lo, -1]);
+        } else {
+            dom.push(0);
+        }
+        if tier == Tier::Thorough {
+            dom.extend([hi - 1, lo + 1]);
+        }
+        let maxlen = if tier == Tier::Thorough { 4 } else { 3 };
+        for s in all_seqs(&dom, maxlen) {
+            if s.is_empty() {
+                continue;
+            }
+            for wrapping in [0i64, 10] {
+                // the whole group lifted / folded, and every cut into two parts in four leaf styles
+                let mut es = vec![json!([3, s]), json!([4, s])];
+                for c in 1..s.len() {
+                    let (a, b) = (s[..c].to_vec(), s[c..].to_vec());
+                    let style = rng.below(4);
+                    let (la, lb) = [(3, 3), (4, 4), (3, 4), (4, 3)][style as usize];
+                    es.push(json!([2, [la, a], [lb, b]]));
+                    if s.len() == 3 && c == 1 {
+                        es.push(json!([2, [2, [la, [s[0]]], [lb, [s[1]]]], [la, [s[2]]]]));
+                        es.push(json!([2, [la, [s[0]]], [2, [lb, [s[1]]], [la, [s[2]]]]]));
+                    }
+                }
+                if wrapping == 10 && tier != Tier::Thorough && es.len() > 3 {
+                    // quick tier: lifted, folded and one seeded split for the wrapping twin
+                    let keep = 2 + rng.below(es.len() as u64 - 2) as usize;
+                    es = vec![es[0].clone(), es[1].clone(), es[keep].clone()];
+                }
+                for e in es {
+                    queue.push(("ovf", json!([ty + wrapping, e]), s.len() >= 2, vec!["exhaustive", "overflow"]));
+                }
+            }
+        }
+        // seeded random expressions: values near the bounds and small ones
+        let nrand = if tier == Tier::Thorough { 4000 } else { 150 };
+        for _ in 0..nrand {
+            let len = rng.below(12) as usize;
+            let vals: Vec<i64> = (0..len)
+                .map(|_| match rng.below(6) {
+                    0 => hi - rng.range(0, 3),
+                    1 => lo + rng.range(0, 3),
+                    2 => rng.range(lo / 2, hi / 2),
+                    3 => rng.range(lo / 8, hi / 8),
+                    _ => rng.range(lo.max(-5), 5),
+                })
+                .collect();
+            let e = random_expr(&mut rng, &vals);
+            let (nv, mg) = expr_stats(&e);
+            let w = *rng.pick(&[0i64, 10]);
+            queue.push(("ovf", json!([ty + w, e]), nv >= 2 && mg, vec!["random", "overflow"]));
+        }
+    }
+}
 
 // ---------------------------------------------------------------- big groups
 /// group sizes: around every power of two up to 4096, every length 60..=80 (all residues mod 8
@@ -1056,9 +1201,9 @@ fn big_sizes(tier: Tier) -> (Vec<i64>, Vec<i64>) {
     }
     v.sort_unstable();
     v.dedup();
-    let mut huge: Vec<i64> = vec![8191, 8192, 8193, 10000, 16384, 16385, 32767, 32769, 65535, 65536, 65537, 100000];
+    let mut huge: Vec<i64> = vec![8191, 8192, 8193, 16385, 32768, 65535, 65536, 65537, 100000];
     if tier == Tier::Thorough {
-        huge.extend([12288, 20000, 50000, 131072, 131073]);
+        huge.extend([10000, 12288, 16383, 16384, 20000, 32767, 32769, 50000, 131072, 131073]);
     }
     (v, huge)
 }
@@ -1104,31 +1249,56 @@ fn big_cases(seed: u64, tier: Tier, queue: &mut Vec<(&'static str, Value, bool, 
     for _ in 0..(if tier == Tier::Thorough { 60 } else { 12 }) {
         all.push((rng.range(2, 5200), false));
     }
-    let budget: i64 = 12_000_000; // model steps per case (n * distinct values, n * k)
     for (n, is_huge) in all {
         for cid in 0..9i64 {
             let nshapes = if is_huge { 3 } else if tier == Tier::Thorough { 8 } else { 5 };
             for shape_ix in 0..nshapes {
                 // shapes 0, 1, 2 always: the two entry styles alone, and a lifted split
                 let shape = if shape_ix < 3 { shape_ix } else { 3 + rng.below(9) };
-                let cap = if is_huge { 2_000_000 } else { budget };
+                // model budget (list steps in Coq: about 1 us each): n * distinct values for the
+                // set based combiners, n * k for TopK; one case in 16 gets a large budget
+                let roomy = !is_huge && rng.chance(1, 16);
+                let cap: i64 = match (tier, roomy) {
+                    (Tier::Thorough, true) => 8_000_000,
+                    (Tier::Thorough, false) => 2_000_000,
+                    (_, true) => 2_500_000,
+                    (_, false) => 400_000,
+                };
+                // many parts: psize first (the merges cost parts * size^2 in the model)
+                let psize = match rng.below(6) {
+                    0 => 1,
+                    1 => *rng.pick(&[2i64, 3, 7, 8, 9]),
+                    2 => *rng.pick(&[63i64, 64, 65, 100]),
+                    3 => n / 2 + 1,
+                    4 => (n / 16).max(1),
+                    _ => rng.range(1, n.max(1)),
+                };
+                let psize = if is_huge { psize.max(n / 64) } else { psize.max(n / 1100 + 1) };
+                let parts = if shape >= 9 { (n + psize - 1) / psize } else { 2 };
+                let fits = |size: i64| n * size.min(n) <= cap && parts * size.min(n) * size.min(n) <= 4 * cap;
                 // value pattern within the model budget of the set / heap based combiners
                 let mut pat = rng.below(7);
                 let (mut a, mut b, mut m, mut off, mut dist) = big_pattern(&mut rng, n, pat);
                 let mut k = if cid == 8 { *rng.pick(&[0i64, 4, 5, 16, 64, 256, 1024]) } else if cid == 7 { big_k(&mut rng, n) } else { 0 };
-                if matches!(cid, 5 | 6 | 8) && n * dist.min(n) > cap {
+                if matches!(cid, 5 | 6 | 8) && !fits(dist) {
                     pat = *rng.pick(&[2u64, 3, 5]);
                     (a, b, m, off, dist) = big_pattern(&mut rng, n, pat);
-                    if n * dist.min(n) > cap {
+                    if !fits(dist) {
                         (a, b, m, off, dist) = big_pattern(&mut rng, n, 3);
                     }
                 }
                 let _ = (dist, pat);
-                if cid == 7 && n * k.min(n) > cap {
-                    k = *rng.pick(&[0i64, 1, 7, 8, 9, 16]);
+                if cid == 7 && !fits(k) {
+                    k = *rng.pick(&[100i64, 64, 65, 33]);
+                    if !fits(k) {
+                        k = *rng.pick(&[0i64, 1, 2, 7, 8, 9]);
+                    }
                 }
-                if cid == 8 && n * k.max(4).min(n) > cap {
-                    k = 4;
+                if cid == 8 && !fits(k.max(4)) {
+                    k = *rng.pick(&[16i64, 64]);
+                    if !fits(k) {
+                        k = *rng.pick(&[0i64, 4, 5]);
+                    }
                 }
                 // element type: mostly i64; u64 needs values >= 0, i32 needs sum |v| < 2^31
                 let vals_abs_max = (m - 1 + off).abs().max(off.abs());
@@ -1168,16 +1338,6 @@ fn big_cases(seed: u64, tier: Tier, queue: &mut Vec<(&'static str, Value, bool, 
                     8 => json!([2, [2, [3, []], [6, g(0, c)]], [2, [0], [5, g(c, n - c)]]]),
                     _ => {
                         // many parts
-                        let psize = match rng.below(6) {
-                            0 => 1,
-                            1 => *rng.pick(&[2i64, 3, 7, 8, 9]),
-                            2 => *rng.pick(&[63i64, 64, 65, 100]),
-                            3 => n / 2 + 1,
-                            4 => (n / 16).max(1),
-                            _ => rng.range(1, n.max(1)),
-                        };
-                        // at most ~1100 parts, keeps the TopK / set merges affordable
-                        let psize = if is_huge { psize.max(n / 64) } else { psize.max(n / 1100 + 1) };
                         json!([7, g(0, n), psize, rng.below(3), rng.below(3)])
                     }
                 };
@@ -1187,6 +1347,143 @@ fn big_cases(seed: u64, tier: Tier, queue: &mut Vec<(&'static str, Value, bool, 
                 }
                 queue.push(("big", json!([cid, k, den, ty, e]), n >= 2, tags));
             }
+        }
+    }
+}
+
+/// threshold ladders for the heap / set based combiners: the SIZE OF THE ACCUMULATOR (k for TopK
+/// and KMV, the number of distinct values for the sets) around every power of two, with both
+/// sides of a merge full
+fn ladder_cases(seed: u64, tier: Tier, queue: &mut Vec<(&'static str, Value, bool, Vec<&'static str>)>) {
+    let mut rng = SplitMix64::new(seed ^ 0x1ADDE7);
+    let thorough = tier == Tier::Thorough;
+    let leafs = |rng: &mut SplitMix64| *rng.pick(&[(5i64, 5i64), (5, 6), (6, 5), (6, 6), (5, 5)]);
+    // ---- TopK: k around the thresholds, parts of k, k+1, 2k, 3k ... values on both sides
+    let mut ks: Vec<i64> = vec![15, 16, 17, 20, 32, 33, 63, 64, 65, 100, 101, 127, 128, 129, 255, 256, 257, 300, 512];
+    if thorough {
+        ks.extend([511, 513, 1000, 1023, 1024, 1025]);
+    }
+    for k in ks {
+        let combos: Vec<(i64, i64)> = vec![(k, k), (k + 1, k), (k - 1, k + 1), (2 * k, 2 * k), (k, 3 * k), (3 * k, k), (k / 2, k / 2 + 1)];
+        for (ci, (la, lb)) in combos.iter().enumerate() {
+            for pat in [0u64, 1, 4, 5] {
+                // large k: a seeded half of the combinations
+                if k >= 256 && !thorough && (ci as u64 + pat) % 2 == rng.below(2) {
+                    continue;
+                }
+                let n = la + lb;
+                let (a, b, m, off, _) = big_pattern(&mut rng, n, pat);
+                let (ta, tb) = leafs(&mut rng);
+                let e = json!([2, [ta, [0, la, a, b, m, off]], [tb, [*la, lb, a, b, m, off]]]);
+                let e = if rng.chance(1, 2) { e } else { json!([2, e[2].clone(), e[1].clone()]) };
+                queue.push(("big", json!([7, k, 1, 0, e]), true, vec!["big", "ladder", "topk"]));
+            }
+        }
+    }
+    // ---- DistinctCount / DistinctSet: d distinct values around the thresholds
+    let mut ds: Vec<i64> = vec![15, 16, 17, 20, 31, 32, 33, 63, 64, 65, 100, 127, 128, 129, 255, 256, 257, 511, 512, 513, 1000, 1023, 1024, 1025];
+    if thorough {
+        ds.extend([2047, 2048, 2049, 4095, 4096, 4097]);
+    }
+    for d in ds {
+        for cid in [5i64, 6] {
+            // all-distinct scrambled values (prime modulus), offsets make the two halves overlap
+            let a = 7919 * (2 * rng.range(1, 50) + 1);
+            let g = |start: i64, len: i64| json!([start, len, a, 11, 1_000_003, -500_000]);
+            let (ta, tb) = leafs(&mut rng);
+            let mut es = vec![
+                json!([5, g(0, d)]),
+                // two parts sharing half of their values: d distinct values in all
+                json!([2, [ta, g(0, d - d / 3)], [tb, g(d / 3, d - d / 3)]]),
+            ];
+            if d <= 600 || thorough {
+                // every value twice: periodic 0..d-1, 2d values
+                es.push(json!([5, [0, 2 * d, 1, 0, d, -(d / 2)]]));
+                es.push(json!([6, g(0, d)]));
+            }
+            for e in es {
+                queue.push(("big", json!([cid, 0, 1, 0, e]), true, vec!["big", "ladder", "distinct"]));
+            }
+        }
+    }
+    if !thorough {
+        // one lifted group past 2048 distinct values per set combiner
+        for cid in [5i64, 6] {
+            queue.push(("big", json!([cid, 0, 1, 0, [5, [0, 2049, 7919 * 3, 11, 1_000_003, 0]]]), true, vec!["big", "ladder", "distinct"]));
+        }
+    }
+    // ---- KMV: k and the number of distinct values around each other
+    for k in [4i64, 5, 16, 64, 256, 1024] {
+        if k == 1024 && !thorough {
+            continue;
+        }
+        for d in [k - 1, k, k + 1, 2 * k, 4 * k + 1] {
+            let a = 7919 * (2 * rng.range(1, 50) + 1);
+            let g = |start: i64, len: i64| json!([start, len, a, 11, 1_000_003, -500_000]);
+            let (ta, tb) = leafs(&mut rng);
+            for e in [
+                json!([5, g(0, d)]),
+                json!([2, [ta, g(0, d - d / 3)], [tb, g(d / 3, d - d / 3)]]),
+                json!([7, [0, 3 * d, 1, 0, d, 0], (d / 4).max(1), rng.below(3), rng.below(3)]),
+            ] {
+                queue.push(("big", json!([8, k, 1, 0, e]), true, vec!["big", "ladder", "kmv"]));
+            }
+        }
+    }
+}
+
+/// large groups with NaN / infinities / -0.0 at chosen positions (first, last, the remainder of a
+/// chunking, scattered), every group size of the big family, both entry styles and chunked trees
+fn fbig_cases(seed: u64, tier: Tier, queue: &mut Vec<(&'static str, Value, bool, Vec<&'static str>)>) {
+    let mut rng = SplitMix64::new(seed ^ 0xFB16);
+    let (sizes, huge) = big_sizes(tier);
+    let mut all: Vec<i64> = sizes.into_iter().filter(|n| *n >= 1).collect();
+    all.extend(huge.iter().filter(|n| **n <= 70000));
+    for n in all {
+        for shape in 0..3u64 {
+            // finite codes in -99..=99 (the doubles -49.5 .. 49.5)
+            let a = *rng.pick(&[1i64, 7, 48271, 0]);
+            let (m, off) = *rng.pick(&[(199i64, -99i64), (7, -3), (2, 0), (50, -25), (100, 0), (3, -1)]);
+            let g = json!([0, n, a, rng.range(0, 50), m, off]);
+            let mut specials: Vec<Value> = Vec::new();
+            let pos = |rng: &mut SplitMix64| match rng.below(4) {
+                0 => 0,
+                1 => n - 1,
+                2 => (n - 1) - (n - 1) % 8, // start of the remainder of chunks_exact(8)
+                _ => rng.range(0, n - 1),
+            };
+            match rng.below(8) {
+                0 => {}
+                1 => specials.push(json!([pos(&mut rng), 100])),
+                2 => specials.push(json!([pos(&mut rng), 101])),
+                3 => specials.push(json!([pos(&mut rng), 102])),
+                4 => {
+                    specials.push(json!([pos(&mut rng), 101]));
+                    specials.push(json!([pos(&mut rng), 102]));
+                }
+                5 => {
+                    for _ in 0..3 {
+                        specials.push(json!([pos(&mut rng), 103]));
+                    }
+                }
+                6 => {
+                    specials.push(json!([pos(&mut rng), 101]));
+                    specials.push(json!([pos(&mut rng), 101]));
+                    specials.push(json!([pos(&mut rng), 103]));
+                }
+                _ => {
+                    for _ in 0..4 {
+                        specials.push(json!([pos(&mut rng), rng.range(100, 103)]));
+                    }
+                }
+            }
+            let (psize, mode) = match shape {
+                0 => (n, 1), // the whole group lifted
+                1 => (n, 0), // the whole group one value at a time
+                _ => ((*rng.pick(&[1i64, 7, 8, 9, 64, 65, 100]).max(&(n / 600 + 1))).min(n), rng.below(3)),
+            };
+            let nt = n >= 2 && specials.iter().any(|s| s[1].as_i64().unwrap() <= 102);
+            queue.push(("fbig", json!([g, specials, psize, mode, rng.below(3)]), nt, vec!["big", "nonfinite"]));
         }
     }
 }
